@@ -7,7 +7,7 @@ import (
 	"verif/proto"
 )
 
-func writeEvidence(b builds, cfg tierCfg, oi oracleInfo, agg *simAgg, eq, cmp int, st *selfTestResult, final *proto.Record, replayPath string) {
+func writeEvidence(b builds, cfg tierCfg, oi oracleInfo, agg *simAgg, eq, cmp int, st *selfTestResult, mt *modelTestResult, final *proto.Record, replayPath string) {
 	wall := time.Since(tStart).Seconds()
 	reached, preempted := 0, 0
 	for _, v := range agg.siteBits {
@@ -95,6 +95,9 @@ func writeEvidence(b builds, cfg tierCfg, oi oracleInfo, agg *simAgg, eq, cmp in
 	}
 	if st != nil {
 		cov["determinism_selftest"] = st
+	}
+	if mt != nil {
+		cov["simulator_model_test"] = mt
 	}
 	viols := 0
 	if final != nil {
